@@ -98,11 +98,31 @@ def arm_of_line(pp, line):
     return None
 
 
-def _len_lets(m, field='self.text.len()'):
-    """top-level `let v = self.text.len();` statements with their statement index"""
+_PP_METHODS = [{}]
+
+
+def _len_kind(e, depth=0):
+    """what a length expression over the output text measures: 'bytes' (`self.text.len()`), 'chars' (`self.text.chars().count()`),
+    through private zero-argument methods of the output type; None if not recognised"""
+    t = sq(e)
+    if t in ('self.text.len()', 'self.text.as_bytes().len()', 'self.text.as_str().len()'):
+        return 'bytes'
+    if t in ('self.text.chars().count()', 'self.text.as_str().chars().count()', 'self.text.char_indices().count()'):
+        return 'chars'
+    if isinstance(e, dict) and e.get('k') == 'mcall' and not e['args'] and sx.is_path(e['recv'], 'self') and depth < 3:
+        for (ty, name), m in _PP_METHODS[0].items():
+            if name == e['m'] and m.get('body'):
+                st = m['body']['stmts']
+                if len(st) == 1 and st[0]['k'] == 'expr' and not st[0].get('semi'):
+                    return _len_kind(st[0]['e'], depth + 1)
+    return None
+
+
+def _len_lets(m, kind='bytes'):
+    """top-level `let v = <length of self.text>;` statements (measured in `kind`) with their statement index"""
     out = {}
     for i, st in enumerate(m['body']['stmts']):
-        if st['k'] == 'let' and 'init' in st and st['pat'].get('k') == 'ident' and sq(st['init']) == field:
+        if st['k'] == 'let' and 'init' in st and st['pat'].get('k') == 'ident' and _len_kind(st['init']) == kind:
             out[st['pat']['n']] = i
     return out
 
@@ -131,6 +151,9 @@ def judge_push(pm):
     if len(inserts) != 1 or len(keys) != 1:
         return 'undecided', '%d insertions / %d Range::new calls' % (len(inserts), len(keys)), t
     A, B = sq(keys[0]['args'][0]), sq(keys[0]['args'][1])
+    charl = _len_lets(pm, 'chars')
+    if A in charl or B in charl or any(('(%s+' % c_) in B or ('+%s)' % c_) in B for c_ in charl):
+        return 'wrong', 'the key (%s, %s) is computed from a CHARACTER count of the text emitted so far; the text and all offsets are in bytes' % (A, B), t
     key_line = keys[0].get('l', 0)
     ap_line = pm['body']['stmts'][ai].get('l', 0)
     okA = A in before
@@ -211,6 +234,10 @@ def judge_merge(mm):
     if not ins:
         return 'wrong', 'the re-based entries are not inserted'
     shifted = {sq(n['recv']): sq(n['args'][0]) for n in offs}
+    charl = _len_lets(mm, 'chars')
+    if any(v in charl for v in shifted.values()):
+        return 'wrong', ('the included entries are shifted by a CHARACTER count of the text emitted so far (`%s`); the text and all offsets are in bytes, so after '
+                         'non-ASCII text the included ranges land too low, overlap the parent\'s last segment and replace it in the map' % sorted(v for v in shifted.values() if v in charl)[0])
     if any(v in after for v in shifted.values()):
         return 'wrong', 'entries are shifted by the text length AFTER the append'
     if kv in shifted and ('%s.range' % ov) in shifted and all(v in before for v in shifted.values()) and len(ins) == 1 \
@@ -499,6 +526,7 @@ def x1_x3(ctx):
         # push: key range = [len_before, len_before + s.len())   — tri-state (OK / WRONG / UNDECIDED)
         pm = writers.get('push')
         if pm:
+            _PP_METHODS[0] = pp.methods
             verdict, why, tparam = judge_push(pm)
             r3.inst('push-keys-tile', {'verdict': verdict, 'why': why})
             if verdict == 'wrong':
@@ -533,6 +561,7 @@ def x1_x3(ctx):
         mm = writers.get('merge')
         if mm:
             _PP_FNS[0] = pp.fns
+            _PP_METHODS[0] = pp.methods
             verdict, why = judge_merge(mm)
             r3.inst('merge-rebases', {'verdict': verdict, 'why': why})
             if verdict == 'wrong':
